@@ -65,7 +65,7 @@ class Run:
         self._viol_printed = 0
         self._case_sets = {}
         import glob
-        for f in glob.glob(os.path.join(REPLAYS, pid, f'{tier}-*.json')):      # replay files of earlier runs of this tier
+        for f in ([] if os.environ.get('VERIF_REPLAY_MODE') else glob.glob(os.path.join(REPLAYS, pid, f'{tier}-*.json'))):      # replay files of earlier runs of this tier
             try:
                 os.remove(f)
             except OSError:
@@ -122,7 +122,7 @@ class Run:
             self.extra.setdefault('_dbg', {})
             self.extra['_dbg'][str(key)] = self.extra['_dbg'].get(str(key), 0) + 1
         os.makedirs(os.path.join(REPLAYS, self.pid), exist_ok=True)
-        path = os.path.join(REPLAYS, self.pid, f'{self.tier}-{self.seed}-{self.violations}.json')
+        path = os.path.join(REPLAYS, self.pid, f"{'replayed-' if os.environ.get('VERIF_REPLAY_MODE') else ''}{self.tier}-{self.seed}-{self.violations}.json")
         if self._viol_printed < 25:
             with open(path, 'w', encoding='utf-8') as f:
                 json.dump({'property': self.pid, 'what': what, 'classes': sorted(classes), 'symptom': symptom,
@@ -157,6 +157,9 @@ class Run:
               'violations': self.violations}
         if self.states < 1 or self.transitions < 1:
             raise MachineryError('no TLC run contributed states: refusing to write model_checking evidence')
+        if getattr(self, 'no_evidence', False) or os.environ.get('VERIF_REPLAY_MODE'):          # --replay: a single case, not a run that describes coverage
+            print(f'[{self.pid}] replay: violations={self.violations} known={sum(self.known_seen.values())}')
+            return 1 if self.violations else 0
         os.makedirs(EVIDENCE, exist_ok=True)
         tmp = os.path.join(EVIDENCE, f'.{self.pid}.json.tmp')
         with open(tmp, 'w', encoding='utf-8') as f:
@@ -200,6 +203,8 @@ def parse_args(argv=None):
     ap.add_argument('--replay', default=None, help='re-run the case stored in a replay file')
     ap.add_argument('--seed', type=int, default=None)
     a = ap.parse_args(argv)
+    if a.replay:
+        os.environ['VERIF_REPLAY_MODE'] = '1'
     if a.seed is None:
         a.seed = seed_from_env()
     if a.replay:
